@@ -31,6 +31,7 @@ logging.disable(logging.CRITICAL)
 SIG_GARBAGE_WRITTEN = 'C07:fs-gc-drops-current-revision-of-garbage-object-written-after-T'
 SIG_REPACK = 'C07:fs-repack-same-time-removes-more'
 SIG_MAP_KEYERROR = 'C07:mapping-gc-keyerror-leaves-partial-state'
+SIG_DEMO_ATTR = 'C07:demo-pack-attributeerror'
 
 EPOCH = 1577836800        # 2020-01-01 00:00:00 UTC; model time m <-> EPOCH + 15*m seconds
 STEP = 15                 # multiples of 15 s are exactly representable in a TimeStamp
@@ -425,6 +426,11 @@ def judge_pack(before, after, T, gc, kind, outcome, truth, bounds, counts):
         bad.append((sig, 'pack(T=%d, gc=%d) on %s removed revision (tid %d, oid %d): not superseded at T and '
                          'the object is %s' % (T, gc, kind, m, o,
                                                'reachable at T' if o in reachT else 'written after T')))
+    # a crash is not a refusal (only KeyError / PackError / AssertionError / ValueError / TypeError are
+    # raised on purpose by the pack code)
+    if outcome.startswith('err:Other('):
+        bad.append((SIG_DEMO_ATTR if (kind == 'demofs' and 'AttributeError' in outcome) else 'C07:pack-crashed',
+                    'pack(T=%d, gc=%d) on %s crashed with %s' % (T, gc, kind, outcome[10:-1])))
     # a refused pack (exception) must leave everything as it was
     if outcome.startswith('err:'):
         mapping_gc_keyerror = (kind in MAPLIKE and outcome == 'err:KeyError')
